@@ -105,11 +105,12 @@ def main():
         if a.keep_as:
             dst = os.path.join(VERIF, "seeded", a.keep_as)
             os.makedirs(dst, exist_ok=True)
-            shutil.copy(patch, os.path.join(dst, "patch.diff"))
-            if have_demo:
-                shutil.copy(demo, os.path.join(dst, "demo.py"))
-            if os.path.exists(os.path.join(src, "notes.md")):
-                shutil.copy(os.path.join(src, "notes.md"), os.path.join(dst, "notes.md"))
+            if os.path.abspath(dst) != src:  # (a re-evaluation of a kept change reads from the directory it is kept in)
+                shutil.copy(patch, os.path.join(dst, "patch.diff"))
+                if have_demo:
+                    shutil.copy(demo, os.path.join(dst, "demo.py"))
+                if os.path.exists(os.path.join(src, "notes.md")):
+                    shutil.copy(os.path.join(src, "notes.md"), os.path.join(dst, "notes.md"))
             with open(os.path.join(dst, "meta.json"), "w") as f:
                 json.dump(meta, f, indent=1)
         return 0
